@@ -331,6 +331,21 @@ def tree_nodes(t):
     return out
 
 
+def ssa_to_linear(ssa, n):
+    """own conversion of a pairwise ssa path into a linear path (positions in the shrinking list, new tensor appended)"""
+    live = list(range(n))
+    out = []
+    nxt = n
+    for step in ssa:
+        pos = sorted(live.index(i) for i in step)
+        out.append(tuple(pos))
+        for q in reversed(pos):
+            live.pop(q)
+        live.append(nxt)
+        nxt += 1
+    return out
+
+
 def ssa_to_children(ssa, n):
     """children map {parent: (a, b)} (1-based leaf sets) of an ssa path; steps
     may contract >= 2 ids only pairwise here"""
